@@ -84,6 +84,26 @@ Definition res_eqb {A} (eqb : A -> A -> bool) (a b : res A) : bool :=
   | _, _ => false
   end.
 
+(* does the model's Go value contain a part the model does not describe? *)
+Fixpoint has_outside (g : gval) {struct g} : bool :=
+  match g with
+  | GVOutside => true
+  | GVSlice (Some l) | GVStruct l => existsb has_outside l
+  | GVMap (Some m) => existsb (fun kv => has_outside (fst kv) || has_outside (snd kv)) m
+  | GVPtr (Some x) => has_outside x
+  | GVIface (Some (_, x)) => has_outside x
+  | _ => false
+  end.
+
+(* observed against predicted result where the prediction may hold undescribed parts (an init hash that is not an
+   instance of the init type is taken as an ordinary positional argument; in an interface{} field it converts back to
+   a map whose type is derived from the inferred Hash type, reflect_any: GVOutside): then only success is compared *)
+Definition res_matches (obs model : res gval) : bool :=
+  match model with
+  | Ok g => if has_outside g then match obs with Ok _ => true | _ => false end else res_eqb gval_eqb obs model
+  | _ => res_eqb gval_eqb obs model
+  end.
+
 (* the oracle for fmt "%v" of float keys, supplied with the cases as a table *)
 Definition ffmt_of (tbl : list (Z * str)) (b : Z) : str :=
   match find (fun p => fst p =? b) tbl with Some p => snd p | None => [] end.
@@ -105,7 +125,7 @@ Definition obj_check (tbl : list (Z * str)) (t : gty) (v : gval) (o : objobs) : 
       let cut := cut_defaults 0 (required_count fs) (attr_order fs) gets in
       list_eqb value_eqb (oo_gets o) gets &&
       value_eqb (oo_inithash o) (VHash ih) &&
-      res_eqb gval_eqb (oo_newh o) (rbind (obj_new_hash n fs ih) (reflect_to t)) &&
+      res_matches (oo_newh o) (rbind (obj_new_hash n fs ih) (reflect_to t)) &&
       Nat.eqb (oo_required o) (required_count fs) &&
       Nat.eqb (oo_trimk o) (length cut) &&
       match gets with
